@@ -513,6 +513,7 @@ def generate(rng, tier):
                 a = render_args(o)
                 a["op"] = "render"
                 a["how"] = rng.choice(["str", "str", "plain", "lines"])
+                a["late"] = rng.random() < 0.4
                 ops.append(a)
                 rendered.add(o)
         elif r < 0.70:
@@ -521,6 +522,7 @@ def generate(rng, tier):
             a = render_args(o)
             a["op"] = "render"
             a["how"] = rng.choice(["str", "str", "plain", "lines"])
+            a["late"] = rng.random() < 0.4
             if a["conf"] == "global" and not a["no_color"] and not a["palette"] and rng.random() < 0.3:
                 a["how"] = "dunder"
             ops.append(a)
@@ -532,6 +534,7 @@ def generate(rng, tier):
                 a["palette"] = None       # a synced palette follows the global configuration: immediate renderings only
             a["op"] = "task_start"
             a["task"] = t
+            a["late"] = rng.random() < 0.4
             ops.append(a)
             live_task[t] = o
         else:
@@ -625,7 +628,7 @@ class ConfModel:
 
 class Task:
     __slots__ = ("r", "cm", "version", "spec_idx", "mode", "lines", "it", "started_at", "interleaved", "obj_slot",
-                 "conf_snapshot")
+                 "conf_snapshot", "late")
 
     def __init__(self, r, cm, spec_idx, mode, started_at, conf_snapshot):
         self.r = r
@@ -638,6 +641,7 @@ class Task:
         self.started_at = started_at
         self.interleaved = 0
         self.conf_snapshot = conf_snapshot
+        self.late = False
 
     def ctx(self):
         return (self.spec_idx, self.conf_snapshot, self.mode)
@@ -664,7 +668,7 @@ class World:
                       "conf_global": 0, "conf_add": 0, "touch": 0, "obj_new": 0, "after_other_conf": 0,
                       "after_drop": 0, "nocolor_checked": 0, "lines_vs_whole": 0, "plain_checked": 0,
                       "ref_errors_agreed": 0, "tbl_refmt": 0, "tbl_remove": 0, "tbl_rendered_then_changed": 0,
-                      "tbl_siblings": 0, "tbl_sibling_of_rendered": 0}
+                      "tbl_siblings": 0, "tbl_sibling_of_rendered": 0, "lines_looked_at_late": 0}
         for k in ("table", "pp", "recfmt", "ghist", "hdoc", "ppwrap", "userbox", "usernote"):
             self.stats["kind." + k] = 0
 
@@ -950,7 +954,13 @@ def _do_op(w, trace, op, n, k, log, color):
                                 or t.mode["no_color"] or t.mode.get("palette")):
             how = "str"
         if how == "lines":
-            lines = w.guarded("iterate-lines", t.ctx(), lambda: [rw.ro.line_to_str(x) for x in rw.ro.line_iter(t.r)])
+            if op.get("late"):
+                # the consumer collects the line objects and looks at them when all have been produced
+                lines = w.guarded("iterate-lines", t.ctx(),
+                                  lambda: [rw.ro.line_to_str(x) for x in list(rw.ro.line_iter(t.r))])
+                w.stats["lines_looked_at_late"] += 1
+            else:
+                lines = w.guarded("iterate-lines", t.ctx(), lambda: [rw.ro.line_to_str(x) for x in rw.ro.line_iter(t.r)])
             text = "\n".join(lines)
             whole = w.guarded("whole-text", t.ctx(), rw.ro.whole_text, t.r, "str")
             if sgr.canon(text) != sgr.canon(whole):
@@ -974,6 +984,7 @@ def _do_op(w, trace, op, n, k, log, color):
         if old is not None and old.it is not None:
             old.it.close() if hasattr(old.it, "close") else None
             w.stats["tasks_abandoned"] += 1
+        t.late = bool(op.get("late"))
         w.tasks[op["task"]] = t
     elif k == "task_step":
         t = w.tasks.get(op["task"])
@@ -989,7 +1000,7 @@ def _do_op(w, trace, op, n, k, log, color):
             if line is _END:
                 _finish_task(w, t, op["task"], log, n)
                 break
-            t.lines.append(rw.ro.line_to_str(line))
+            t.lines.append(line if t.late else rw.ro.line_to_str(line))
             w.stats["task_steps"] += 1
     elif k == "task_drain":
         t = w.tasks.get(op["task"])
@@ -1001,7 +1012,7 @@ def _do_op(w, trace, op, n, k, log, color):
             line = w.guarded("next(line)", t.ctx(), _next, t.it)
             if line is _END:
                 break
-            t.lines.append(rw.ro.line_to_str(line))
+            t.lines.append(line if t.late else rw.ro.line_to_str(line))
             w.stats["task_steps"] += 1
         _finish_task(w, t, op["task"], log, n)
     elif k == "task_whole":
@@ -1063,6 +1074,9 @@ def _next(it):
 
 def _finish_task(w, t, slot, log, n):
     w.tasks.pop(slot, None)
+    if t.late:
+        t.lines = w.guarded("str(line) after the last line", t.ctx(), lambda: [rw.ro.line_to_str(x) for x in t.lines])
+        w.stats["lines_looked_at_late"] += 1
     kind = w.specs[t.spec_idx]["kind"]
     text = "\n".join(t.lines)
     if t.interleaved:
